@@ -137,6 +137,7 @@ pub enum Action {
 	Restart { n: usize, style: u8 },
 	Abandon { n: usize, pay: usize },
 	Sweep { n: usize },
+	Reorg { depth: u32, readmit: bool, new_len: u32 },
 	Settle,
 	/// close everything, mine until all monitors have drained, sweep, then the wealth oracle
 	Liquidate,
@@ -169,6 +170,7 @@ impl Action {
 			Action::Restart { .. } => "Restart",
 			Action::Abandon { .. } => "Abandon",
 			Action::Sweep { .. } => "Sweep",
+			Action::Reorg { .. } => "Reorg",
 			Action::Settle => "Settle",
 			Action::Liquidate => "Liquidate",
 		}
@@ -197,7 +199,7 @@ impl Action {
 			Action::Deliver { to, .. } => *to,
 			Action::Disconnect { a, .. } | Action::Reconnect { a, .. } => *a,
 			Action::Send { from, .. } => *from,
-			Action::Mine { .. } | Action::Settle | Action::Liquidate => 99,
+			Action::Mine { .. } | Action::Reorg { .. } | Action::Settle | Action::Liquidate => 99,
 		}
 	}
 }
@@ -383,6 +385,13 @@ pub struct Node {
 	/// channels that were closed (user force close or peer error) while an asynchronous monitor
 	/// write of that channel was still in flight
 	pub closed_inflight: BTreeSet<usize>,
+	/// C12 round-trip checks after every action that touched this node
+	pub check_roundtrip: bool,
+	/// C11: how this incarnation is told about the chain, what it was told, its shadow monitors
+	pub style: u8,
+	pub view: Vec<bitcoin::BlockHash>,
+	pub shadows: BTreeMap<[u8; 32], crate::chainstyle::Shadow>,
+	pub check_styles: bool,
 }
 
 #[derive(Clone, Debug)]
@@ -538,11 +547,10 @@ fn build_live(node: &Node, manager_bytes: Option<&[u8]>) -> Result<Live, String>
 		node.keys.get_peer_storage_key(),
 		node.cfg.deferred,
 	));
-	let watch = Arc::new(WatchTap {
-		inner: Arc::clone(&monitor),
-		log: Mutex::new(Vec::new()),
-		enabled: AtomicBool::new(true),
-	});
+	let watch = Arc::new(WatchTap::new(Arc::clone(&monitor)));
+	*watch.tools.lock().unwrap() =
+		Some((Arc::clone(&node.keys), Arc::clone(&node.fee), Arc::clone(&node.logger)));
+	watch.check_update_commutes.store(node.check_roundtrip, std::sync::atomic::Ordering::Relaxed);
 	let network = Network::Bitcoin;
 	let params = ChainParameters { network, best_block: BlockLocator::from_network(network) };
 	let manager = Arc::new(ChannelManager::new(
@@ -616,6 +624,11 @@ impl World {
 				outdated_chans: BTreeSet::new(),
 				loaded_gens: Vec::new(),
 				closed_inflight: BTreeSet::new(),
+				check_roundtrip: cfg.profile == "roundtrip",
+				style: if cfg.profile == "chainstyle" { (cfg.node_seed.wrapping_add(idx as u64 * 3) % crate::chainstyle::N_STYLES as u64) as u8 } else { 0 },
+				view: Vec::new(),
+				shadows: BTreeMap::new(),
+				check_styles: cfg.profile == "chainstyle",
 			};
 			node.live = Some(build_live(&node, None).expect("fresh node"));
 			nodes.push(node);
@@ -823,7 +836,7 @@ impl World {
 		// confirm fundings
 		self.chain.mine_empty(8);
 		for n in 0..self.nodes.len() {
-			self.do_sync(n, 0);
+			self.do_sync(n, 255);
 		}
 		self.setup_pump_all();
 		// learn channel ids / scids
@@ -847,6 +860,9 @@ impl World {
 		for n in 0..self.nodes.len() {
 			self.do_persist_mgr(n);
 			self.nodes[n].broadcaster.take();
+			if self.nodes[n].check_styles {
+				self.make_shadows(n);
+			}
 		}
 		self.note("setup done");
 	}
@@ -1912,38 +1928,46 @@ impl World {
 		true
 	}
 
-	/// Brings node `n` (manager and chain monitor) from its best block to the tip.
-	/// style 0: transactions_confirmed then best_block_updated per block (Confirm)
+	/// Brings node `n` (manager and chain monitor) to the tip of the best chain in the node's
+	/// delivery style (`style` 255 = the node's own), handling reorganisations.
 	pub fn do_sync(&mut self, n: usize, style: u8) -> bool {
-		let _ = style;
 		let (mgr, mon) = match self.nodes[n].live.as_ref() {
 			Some(l) => (Arc::clone(&l.manager), Arc::clone(&l.monitor)),
 			None => return false,
 		};
 		let tip = self.chain.tip_height();
-		let start = self.nodes[n].synced_height;
-		if start >= tip {
+		let on_chain = {
+			let v = &self.nodes[n].view;
+			let h = self.nodes[n].synced_height;
+			(h as usize) < v.len() && h <= tip && v[h as usize] == self.chain.block_at(h).header.block_hash()
+		};
+		if self.nodes[n].synced_height >= tip && on_chain {
 			return false;
 		}
-		for h in (start + 1)..=tip {
-			let b = self.chain.block_at(h).clone();
-			let txdata: Vec<(usize, &Transaction)> =
-				b.txs.iter().enumerate().map(|(i, t)| (i + 1, t)).collect();
-			let res = catch(|| {
-				if !txdata.is_empty() {
-					mon.transactions_confirmed(&b.header, &txdata, h);
-					mgr.transactions_confirmed(&b.header, &txdata, h);
-				}
-				mon.best_block_updated(&b.header, h);
-				mgr.best_block_updated(&b.header, h);
-			});
-			if let Err((m, l)) = res {
-				self.library_panic("Sync", m, l);
-				return true;
-			}
+		let _ = style;
+		let style = self.nodes[n].style;
+		let tgt = crate::chainstyle::LiveTarget { mgr, mon, filter: Arc::clone(&self.nodes[n].filter) };
+		let mut view = std::mem::take(&mut self.nodes[n].view);
+		let mut height = self.nodes[n].synced_height;
+		if view.is_empty() {
+			// a fresh node knows the genesis block only
+			view.push(self.chain.block_at(0).header.block_hash());
 		}
-		self.nodes[n].synced_height = tip;
+		let mut counters = Vec::new();
+		let res = catch(|| crate::chainstyle::drive(&self.chain, &tgt, &mut view, &mut height, style, &mut counters));
+		self.nodes[n].view = view;
+		self.nodes[n].synced_height = height;
+		for c in counters {
+			self.out.bump(&c);
+		}
+		if let Err((m, l)) = res {
+			self.library_panic("Sync", m, l);
+			return true;
+		}
 		self.after_node_action(n);
+		if self.nodes[n].check_styles && !self.dead {
+			self.shadow_compare(n);
+		}
 		true
 	}
 
@@ -1953,6 +1977,9 @@ impl World {
 	pub fn after_node_action(&mut self, n: usize) {
 		self.scan_signer_log(n);
 		self.scan_watch_log(n);
+		if self.nodes[n].check_roundtrip && !self.frozen(n) && !self.in_settle {
+			self.roundtrip_monitors(n);
+		}
 	}
 
 	pub fn fingerprint(&mut self) {
@@ -2037,12 +2064,18 @@ impl World {
 			Action::ForceClose { n, chan } => self.do_force_close(*n, *chan),
 			Action::CompleteMon { n, chan, which } => self.do_complete_mon(*n, *chan, *which),
 			Action::AsyncOn { n, chan } => self.do_async_on(*n, *chan),
-			Action::PersistMgr { n } => self.do_persist_mgr(*n),
+			Action::PersistMgr { n } => {
+				let r = self.do_persist_mgr(*n);
+				if self.nodes[*n].check_roundtrip && !self.frozen(*n) {
+					self.roundtrip_manager(*n);
+				}
+				r
+			},
 			Action::Relay { n } => self.do_relay(*n),
 			Action::Mine { count } => {
 				let r = self.do_mine(*count);
 				for n in 0..self.nodes.len() {
-					self.do_sync(n, 0);
+					self.do_sync(n, 255);
 				}
 				r
 			},
@@ -2052,6 +2085,15 @@ impl World {
 			Action::Restart { n, style } => self.do_restart(*n, *style),
 			Action::Abandon { n, pay } => self.do_abandon(*n, *pay),
 			Action::Sweep { n } => self.do_sweep(*n),
+			Action::Reorg { depth, readmit, new_len } => {
+				let r = self.do_reorg(*depth, *readmit, *new_len);
+				if r {
+					for n in 0..self.nodes.len() {
+						self.do_sync(n, 255);
+					}
+				}
+				r
+			},
 			Action::Settle => {
 				self.settle();
 				true
@@ -2162,7 +2204,7 @@ impl World {
 			}
 			if chain_moved || round % 8 == 7 {
 				for n in 0..n_nodes {
-					progress |= self.do_sync(n, 0);
+					progress |= self.do_sync(n, 255);
 				}
 			}
 			progress |= chain_moved;
